@@ -1,3 +1,4 @@
 H("c17_conc", "C17", "sched", ["harness/c17_conc.cc"], sdk=["common", "version", "resource", "metrics"],
-  what="Engine A: a collection in flight on one thread while another thread removes a callback / destroys the instrument (real ObservableRegistry): no invocation may start after RemoveCallback / the destruction returned",
+  what="Engine A: a collection in flight on one thread while another thread removes a callback / destroys the instrument (real ObservableRegistry): no invocation may start after RemoveCallback / the destruction returned; "
+       "two readers (cumulative + delta) collecting concurrently on one observable counter / gauge: one invocation per collection, exact values",
   design_ref="5/C17")
